@@ -2,7 +2,7 @@ import os, json
 from . import core
 from .core import log
 
-RULE = ("every history of <= 3 mutating calls (maps; 4 for sequences; the thorough tier adds a sampled level 4 / 5) over keys {a,b,c} on toml_edit::Table, InlineTable, "
+RULE = ("every history of <= 3 mutating calls (maps; 4 for sequences; the thorough tier adds a sampled level 4 / 5; plus every history of <= 2 (thorough 3) calls after a three-call setup that leaves entries out of key order around a placeholder) over keys {a,b,c} on toml_edit::Table, InlineTable, "
         "their TableLike views, Array, ArrayOfTables and toml::Map in both its sorted and insertion-ordered builds, enumerated "
         "by TLC on the Containers state machine (ordered-map laws checked as invariants and action properties); each history is "
         "replayed through the real API recording every return value and the full observation (len, is_empty, iteration, get and "
@@ -11,6 +11,7 @@ RULE = ("every history of <= 3 mutating calls (maps; 4 for sequences; the thorou
         "distinct_nontrivial = distinct (container kind, history) pairs with at least one mutating call")
 CFG = """SPECIFICATION Spec
 CONSTANTS
+  SETUP = %d
   KIND = "%s"
   MaxN = %d
   Keys = {"a", "b", "c"}
@@ -43,11 +44,11 @@ def known_for(ctx, m):
     return None
 
 
-def gen_histories(ctx, kind, maxn, sample=1):
+def gen_histories(ctx, kind, maxn, sample=1, setup=0):
     hs = {}
     def on(o):
         hs[json.dumps(o["ops"], sort_keys=True)] = o
-    r = ctx.tlc("MCContainers", CFG % (kind, maxn, sample), tag="cont-%s-n%d" % (kind, maxn), workers=6, timeout=7200, on_json=on)
+    r = ctx.tlc("MCContainers", CFG % (setup, kind, maxn, sample), tag="cont-%s-n%d-s%d" % (kind, maxn, setup), workers=6, timeout=7200, on_json=on)
     log("MCContainers %s: %d distinct states, %d distinct histories, %.1fs" % (kind, r.distinct, len(hs), r.wall))
     ctx.extra.setdefault("container_models", []).append({"kind": kind, "MaxN": maxn, "distinct_states": r.distinct, "histories": len(hs)})
     return list(hs.values())
@@ -58,6 +59,9 @@ def run(ctx):
     for kind in KINDS:
         seqk = kind in ("array", "aot")
         hists = gen_histories(ctx, kind, 4 if seqk else 3)
+        # every history of <= 2 (thorough 3) further calls on a container prepared by three calls (entries out of key
+        # order, a placeholder between two of them where the kind has placeholders)
+        hists += gen_histories(ctx, kind, 3 + (2 if ctx.quick else 3), 1, setup=1)
         if not ctx.quick:
             # one level deeper, one in SAMPLE of the last operations (the full level has millions of histories)
             hists += gen_histories(ctx, kind, 5 if seqk else 4, 7 if seqk else 23)
